@@ -108,6 +108,7 @@ func C19_Register() {
 		fields["confirm_password"] = cnf
 	}
 	fields["admin"] = extra // a hostile extra field
+	fields["EMAIL"] = verif.String("f_email_upper", 3) // a case variant of a whitelisted name is another field
 	r := world.Request("POST", "/register", "")
 	if jsonMode {
 		b, _ := json.Marshal(fields)
